@@ -214,6 +214,13 @@ def run_one(mod, case):
     case attached (never turned into a violation).  Modules that set RUN_TIMEOUT get a
     wall-clock watchdog (SIGALRM interrupts pure-Python loops and the regex engine alike): a run
     that exceeds it is a violation of class <PROP>:no-answer-within-<n>s, not a harness error."""
+    if 'history' in case:
+        # a violation that only shows after other runs of the same process (state kept in process-wide objects
+        # of the system under test): the replayable unit is the sequence of cases, judged by its last one
+        res = None
+        for c in case['history']:
+            res = run_one(mod, c)
+        return res
     limit = getattr(mod, 'RUN_TIMEOUT', None)
     armed = False
     if limit and threading.current_thread() is threading.main_thread():
